@@ -229,14 +229,23 @@ func (model Model) AddPolicy(sec string, ptype string, rule []string) error {
 	assertion.PolicyMap[strings.Join(rule, DefaultSep)] = len(model[sec][ptype].Policy) - 1
 
 	hasPriority := false
-	if _, ok := assertion.FieldIndexMap[constant.PriorityIndex]; ok {
-		hasPriority = true
+	priorityIndex := -1
+	if sec == "p" {
+		// resolve the priority column from the policy definition (or SetFieldIndex), whether
+		// or not a policy was ever loaded and sorted before
+		if index, err := model.GetFieldIndex(ptype, constant.PriorityIndex); err == nil && index < len(rule) {
+			hasPriority = true
+			priorityIndex = index
+		}
 	}
 	if sec == "p" && hasPriority {
-		if idxInsert, err := strconv.Atoi(rule[assertion.FieldIndexMap[constant.PriorityIndex]]); err == nil {
+		if idxInsert, err := strconv.Atoi(rule[priorityIndex]); err == nil {
 			i := len(assertion.Policy) - 1
 			for ; i > 0; i-- {
-				idx, err := strconv.Atoi(assertion.Policy[i-1][assertion.FieldIndexMap[constant.PriorityIndex]])
+				if priorityIndex >= len(assertion.Policy[i-1]) {
+					break
+				}
+				idx, err := strconv.Atoi(assertion.Policy[i-1][priorityIndex])
 				if err != nil || idx <= idxInsert {
 					break
 				}
